@@ -49,7 +49,12 @@ func decorated() []schema {
 	m := base.MessageType[0]
 	m.ReservedName = []string{"old_a", "old_b"}
 	m.ReservedRange = []*descriptorpb.DescriptorProto_ReservedRange{{Start: proto.Int32(50), End: proto.Int32(60)}, {Start: proto.Int32(70), End: proto.Int32(71)}}
-	m.ExtensionRange = []*descriptorpb.DescriptorProto_ExtensionRange{{Start: proto.Int32(1000), End: proto.Int32(2000)}, {Start: proto.Int32(5000), End: proto.Int32(536870912)}}
+	m.ExtensionRange = []*descriptorpb.DescriptorProto_ExtensionRange{
+		{Start: proto.Int32(1000), End: proto.Int32(2000)},
+		{Start: proto.Int32(3000), End: proto.Int32(3001), Options: &descriptorpb.ExtensionRangeOptions{Verification: descriptorpb.ExtensionRangeOptions_UNVERIFIED.Enum()}},
+		{Start: proto.Int32(4000), End: proto.Int32(4010)},
+		{Start: proto.Int32(5000), End: proto.Int32(536870912), Options: &descriptorpb.ExtensionRangeOptions{Declaration: []*descriptorpb.ExtensionRangeOptions_Declaration{{Number: proto.Int32(5000), FullName: proto.String(".verif.deco.ext5000"), Type: proto.String("int32")}}}},
+	}
 	m.EnumType = []*descriptorpb.EnumDescriptorProto{{Name: proto.String("Inner"), Value: []*descriptorpb.EnumValueDescriptorProto{{Name: proto.String("I_A"), Number: proto.Int32(1)}, {Name: proto.String("I_B"), Number: proto.Int32(1)}, {Name: proto.String("I_C"), Number: proto.Int32(5)}},
 		Options: &descriptorpb.EnumOptions{AllowAlias: proto.Bool(true)}, ReservedName: []string{"GONE"}, ReservedRange: []*descriptorpb.EnumDescriptorProto_EnumReservedRange{{Start: proto.Int32(10), End: proto.Int32(20)}}}}
 	m.Options = &descriptorpb.MessageOptions{Deprecated: proto.Bool(true)}
@@ -79,6 +84,11 @@ func decorated() []schema {
 	}
 	df := univ.SchemaFile("verif/defaults.proto", "verif.defaults", univ.Proto2, shapes)
 	// an empty-string default must be kept as "has default"
+	for _, t := range []descriptorpb.FieldDescriptorProto_Type{descriptorpb.FieldDescriptorProto_TYPE_STRING, descriptorpb.FieldDescriptorProto_TYPE_BYTES} {
+		fs := df.MessageType[0].Field
+		n := int32(len(fs) + 1)
+		df.MessageType[0].Field = append(fs, &descriptorpb.FieldDescriptorProto{Name: proto.String(fmt.Sprintf("empty_default_%d", n)), JsonName: proto.String(fmt.Sprintf("emptyDefault%d", n)), Number: proto.Int32(n + 100), Type: t.Enum(), Label: descriptorpb.FieldDescriptorProto_LABEL_OPTIONAL.Enum(), DefaultValue: proto.String("")})
+	}
 	out = append(out, schema{"defaults proto2", df})
 	return out
 }
